@@ -9,9 +9,12 @@ import (
 	"log/slog"
 	"net"
 	"net/netip"
+	"sync"
 	"sync/atomic"
 	"time"
 
+	"github.com/google/gopacket"
+	"github.com/scionproto/scion/pkg/slayers"
 	"github.com/scionproto/scion/pkg/snet"
 	spath "github.com/scionproto/scion/pkg/snet/path"
 
@@ -302,6 +305,131 @@ func runCtxDone(w *worker, reps int) {
 					lib.V(lib.Bool(err == nil), lib.I(int64(nreq)), lib.I(nf), lib.I(int64(off))))
 				outMu.Unlock()
 			}
+		}
+	}
+}
+
+// offsFilter records the offsets of the measurements the clients evaluated
+type offsFilter struct {
+	mu   sync.Mutex
+	offs []time.Duration
+}
+
+func (f *offsFilter) Do(t0, t1, t2, t3 time.Time) time.Duration {
+	off := ntp.ClockOffset(t0, t1, t2, t3)
+	f.mu.Lock()
+	f.offs = append(f.offs, off)
+	f.mu.Unlock()
+	return off
+}
+func (f *offsFilter) Reset() {}
+
+// pathPeer: a scripted next hop of its own for one path: answers the one request it gets
+// with the datagram of recipe rc after delay.
+func (w *worker) pathPeer(rc recipe, delay time.Duration) (conn *net.UDPConn, seen *atomic.Int64) {
+	conn, err := net.ListenUDP("udp4", net.UDPAddrFromAddrPort(netip.AddrPortFrom(w.addrA, 0)))
+	if err != nil {
+		panic(err)
+	}
+	seen = &atomic.Int64{}
+	go func() {
+		buf := make([]byte, 16384)
+		for {
+			n, from, err := conn.ReadFromUDPAddrPort(buf)
+			if err != nil {
+				return
+			}
+			arrival := time.Now()
+			var (
+				scn  slayers.SCION
+				hbh  slayers.HopByHopExtnSkipper
+				e2e  slayers.EndToEndExtn
+				u    slayers.UDP
+				scmp slayers.SCMP
+			)
+			parser := gopacket.NewDecodingLayerParser(slayers.LayerTypeSCION, &scn, &hbh, &e2e, &u, &scmp)
+			parser.IgnoreUnsupported = true
+			decoded := make([]gopacket.LayerType, 4)
+			if parser.DecodeLayers(buf[:n], &decoded) != nil || len(decoded) < 2 ||
+				decoded[len(decoded)-1] != slayers.LayerTypeSCIONUDP || len(u.Payload) < 48 {
+				continue
+			}
+			srcHost, ok1 := netip.AddrFromSlice(scn.RawDstAddr)
+			dstHost, ok2 := netip.AddrFromSlice(scn.RawSrcAddr)
+			if !ok1 || !ok2 {
+				continue
+			}
+			seen.Add(1)
+			rq := &reqRec{raw: append([]byte(nil), u.Payload...), arrival: arrival, addr: from, server: srcHost.Unmap(), other: w.addrB}
+			var p ntp.Packet
+			_ = ntp.DecodePacket(&p, rq.raw)
+			rq.org, rq.rx, rq.tx = p.OriginTime, p.ReceiveTime, p.TransmitTime
+			good := scionHdr{srcIA: scn.DstIA, dstIA: scn.SrcIA, srcHost: srcHost.Unmap(), dstHost: dstHost.Unmap(),
+				srcPort: u.DstPort, dstPort: u.SrcPort}
+			w.mu.Lock()
+			pl, _ := w.build(rc, rq, 0)
+			w.mu.Unlock()
+			dg := buildSCION(good, pl)
+			time.Sleep(delay)
+			_, _ = conn.WriteToUDPAddrPort(dg, from)
+		}
+	}()
+	return conn, seen
+}
+
+// runTwoPath: MeasureClockOffsetSCION with two clients and two paths, each path with a next
+// hop of its own.  Variant 0: one path answers at once with a response that is rejected at
+// once (stratum 0), the other with the genuine response 300 ms later; 1: both genuine;
+// 2: both rejected.  The call reports a measurement only if a datagram was accepted, and
+// then one that lies between the accepted measurements.
+func runTwoPath(w *worker, reps int) {
+	quiet := slog.New(nullHandler{})
+	bad := recipe{kind: 4, p1: 0}
+	for rep := 0; rep < reps; rep++ {
+		for v := 0; v < 3; v++ {
+			w.mu.Lock()
+			w.nts = false
+			w.mu.Unlock()
+			r1, r2 := bad, recipe{kind: 0}
+			d1, d2 := time.Duration(0), 300*time.Millisecond
+			switch v {
+			case 1:
+				r1, d2 = recipe{kind: 0}, 50*time.Millisecond
+			case 2:
+				r2 = bad
+			}
+			if rep%2 == 1 {
+				r1, r2, d1, d2 = r2, r1, d2, d1 // the same with the paths exchanged
+			}
+			c1, n1 := w.pathPeer(r1, d1)
+			c2, n2 := w.pathPeer(r2, d2)
+			flt := &offsFilter{}
+			cs := []*client.SCIONClient{{Log: quiet, Filter: flt}, {Log: quiet, Filter: flt}}
+			la := udp.UDPAddr{IA: clientIA, Host: &net.UDPAddr{IP: net.IP(w.addrA.AsSlice())}}
+			ra := udp.UDPAddr{IA: serverIA, Host: &net.UDPAddr{IP: net.IP(w.addrA.AsSlice()), Port: 10123}}
+			ps := []snet.Path{
+				spath.Path{Src: clientIA, Dst: serverIA, DataplanePath: spath.Empty{}, NextHop: c1.LocalAddr().(*net.UDPAddr)},
+				spath.Path{Src: clientIA, Dst: serverIA, DataplanePath: spath.Empty{}, NextHop: c2.LocalAddr().(*net.UDPAddr)},
+			}
+			ctx, cancel := context.WithTimeout(context.Background(), 4*time.Second)
+			ts, off, err := client.MeasureClockOffsetSCION(ctx, quiet, cs, la, ra, ps)
+			cancel()
+			flt.mu.Lock()
+			offs := make([]string, len(flt.offs))
+			for i, o := range flt.offs {
+				offs[i] = lib.I(int64(o))
+			}
+			flt.mu.Unlock()
+			time.Sleep(20 * time.Millisecond)
+			c1.Close()
+			c2.Close()
+			if err != nil {
+				off = 0
+			}
+			outMu.Lock()
+			out.Case("scion.twopath", "nt", lib.I(int64(v)),
+				lib.V(lib.Bool(err == nil), lib.I(int64(off)), lib.Bool(err == nil && ts.IsZero()), lib.I(n1.Load()+n2.Load()), lib.L(offs...)))
+			outMu.Unlock()
 		}
 	}
 }
